@@ -25,9 +25,11 @@ namespace {
 const double EPS = 2.220446049250313e-16;
 const int PMAX = VNADATA_MAX_PRECISION;
 // calibrated constants (see notes/agent-files.md): observed maxima are tracked as *_ratio
-const double C_CONV = 512;     // conversion noise: C_CONV * eps * (|y| + sensitivity)
+const double C_CONV = 8192;    // conversion noise: C_CONV * eps * (|y| + element-wise sensitivity)
 const double C_FIELD = 16;     // rounding of a derived field (abs, arg, log10, RC/RL views) in double
-const double C_LOAD = 64;      // loader decode (polar, dB, RC/RL, TS1 un-normalisation)
+const double C_LOAD = 256;     // loader decode (polar, dB, RC/RL, TS1 un-normalisation)
+const long double DB_ABS = 8.685889638065037L;   // d(20 log10 m) = 8.69 dm/m: absolute rounding floor of a dB field
+const long double ILL = 1e-9L; // conversion noise above ILL * |value|: value numerically undetermined, not compared
 
 struct Spec { int param; int fmt; };          // param may be P_UNDEF (bare ri/ma/dB)
 
@@ -102,7 +104,36 @@ struct H {
         }
         return o;
     }
+    // a specifier the documentation allows for this object and file type
+    Spec gen_valid_spec(bool touchstone) {
+        Spec s{P_UNDEF, F_RI};
+        if (type == P_ZIN) {        // only the input-impedance views (Touchstone cannot hold them at all)
+            int k = (int)c.draw(7);
+            s.param = k == 0 ? P_UNDEF : P_ZIN;
+            s.fmt = k <= 2 ? F_RI : k == 3 ? F_MA : (int)c.range(F_PRC, F_SRL);
+            return s;
+        }
+        int k = touchstone ? c.weighted({5, 3, 8, 0, 0, 0}) : c.weighted({4, 2, 5, 2, 3, 3});
+        switch (k) {
+        case 0: s.param = type; break;
+        case 1: s.param = P_UNDEF; break;
+        case 2: {
+            std::vector<int> ok = {P_S, P_Z, P_Y};
+            if (n == 2) { ok.push_back(P_H); ok.push_back(P_G); if (!touchstone) for (int q : {P_T, P_U, P_A, P_B}) ok.push_back(q); }
+            s.param = c.pick(ok); break;
+        }
+        case 3: s.param = P_ZIN; s.fmt = c.boolean() ? F_MA : F_RI; return s;
+        case 4: s.param = P_ZIN; s.fmt = (int)c.range(F_PRC, F_SRL); return s;
+        default: s.param = P_S; s.fmt = n >= 2 ? (int)c.range(F_IL, F_VSWR) : (int)c.range(F_RL, F_VSWR); return s;
+        }
+        int prm = s.param == P_UNDEF ? type : s.param;
+        if (touchstone && !(prm == P_S || prm == P_Z || prm == P_Y || prm == P_H || prm == P_G)) s.param = P_S, prm = P_S;
+        s.fmt = (int[]){F_RI, F_MA, F_DB}[c.weighted({4, 3, 3})];
+        if (!touchstone && s.fmt == F_DB && !is_power(prm)) s.fmt = F_MA;     // NPD: dB only for s, t, u
+        return s;
+    }
     Spec gen_spec(bool touchstone) {
+        if (!c.chance(1, 5)) return gen_valid_spec(touchstone);
         Spec s{P_UNDEF, F_RI};
         // 0 own type, 1 bare, 2 S/Z/Y, 3 any matrix type, 4 Zin, 5 Zin view, 6 scalar view
         int k = touchstone ? c.weighted({6, 3, 6, 3, 1, 1, 1}) : c.weighted({5, 2, 5, 4, 2, 3, 3});
@@ -167,7 +198,8 @@ struct H {
         if (!views && c.chance(1, 16)) { f[0] = 0; c.label("f0=0"); }
     }
     void gen_z0() {
-        z0mode = c.weighted({5, 3, 3, 2});
+        // Touchstone cannot hold complex or per-frequency z0 (refusals still generated, but less often)
+        z0mode = kind_model == tsio::K_NPD ? c.weighted({5, 3, 3, 2}) : c.weighted({9, 3, 1, 1});
         if (n == 1 && z0mode == 1) z0mode = 0;
         auto real_z = [&]() -> cl {
             switch (c.weighted({3, 1, 3})) {
@@ -187,9 +219,19 @@ struct H {
     static cl rd(cl x) { return cl((ld)(double)x.real(), (ld)(double)x.imag()); }     // round to double
     void gen_data() {
         int cells = rows * cols;
-        bool conv = kind_model == tsio::K_TS1;
-        for (auto &s : specs) if (s.param != P_UNDEF && s.param != type) conv = true;
-        nice = conv ? !c.chance(1, 8) : c.chance(1, 4);
+        // Where the saver has to convert (another parameter type requested, or Touchstone 1
+        // normalisation of Z/Y/H/G) the object holds a well-conditioned network derived from a
+        // moderate S matrix; accuracy of the conversions on badly scaled data is the subject of
+        // C04/C05, not of this property.  Free magnitudes 1e-12..1e12 are used where the numbers
+        // are stored directly.
+        bool conv = false;
+        for (auto &s : specs) {
+            int prm = s.param == P_UNDEF ? type : s.param;
+            if (prm != type) conv = true;
+            if (kind_model == tsio::K_TS1 && prm != P_S) conv = true;
+        }
+        if (!has_format && kind_model == tsio::K_TS1 && type != P_S) conv = true;
+        nice = conv ? true : c.chance(1, 4);
         data.assign(F, std::vector<cl>(cells));
         for (int fi = 0; fi < F; fi++) {
             if (nice) {
@@ -304,7 +346,7 @@ struct H {
     }
 
     // tolerance of a "significant digits" field
-    void check_sig(const Tok &t, ld expv, int p, ld fnoise, bool direct, const char *what, int fi, int idx) {
+    void check_sig(const Tok &t, ld expv, int p, ld fnoise, bool direct, const char *what, int fi, int idx, ld absround = 0) {
         if (!(fnoise == fnoise) || std::isinf((double)fnoise)) { c.label("field-unconstrained"); return; }
         double e = (double)expv;
         if (std::isnan(e)) { c.label("expected-nan"); return; }
@@ -314,10 +356,11 @@ struct H {
             return;
         }
         ld rel = p == PMAX ? 0 : 0.6L * powl(10.0L, 1 - p);
-        ld tol = rel * fabsl(expv) + (direct ? 0 : C_FIELD * EPS * fabsl(expv)) + fnoise + (p == PMAX ? 2 * EPS * fabsl(expv) : 0);
+        ld tol = rel * fabsl(expv) + (direct ? 0 : C_FIELD * EPS * (fabsl(expv) + absround)) + fnoise + 2 * EPS * fabsl(expv);   // last term: decimal -> double rounding of the reader
         ld err = fabsl((ld)t.val - expv);
         if (tol > 0 && fnoise == 0) c.track_max("sig_err/tol", (double)(err / tol));
         if (fnoise > 0 && p == PMAX) c.track_max("conv_err/noise", (double)(err / fnoise));
+        if (!direct && fnoise == 0 && p == PMAX && fabsl(expv) + absround > 0) c.track_max("field_err/tol", (double)(err / (C_FIELD * EPS * (fabsl(expv) + absround))));
         PBT_CHECK(c, err <= tol, "C06.file_value", "%s f%d #%d: file has %s, expected %.17Lg (|diff| %.3Lg > tol %.3Lg; precision %d)", what, fi, idx, t.text.c_str(), expv, err, tol, p);
     }
     void check_angle(const Tok &t, ld expdeg, ld anoise_deg, const char *what, int fi, int idx) {
@@ -362,9 +405,10 @@ struct H {
         bool must_accept = !has_format && kind_model == tsio::K_NPD;
 
         VD o; build(o);
-        bool real_file = c.chance(1, 16);
+        bool real_file = c.chance(1, 16);      // vnadata_save / vnadata_load on a real file instead of fsave / fload
         std::string path = filename;
-        if (real_file) { const char *d = getenv("PBT_TMPDIR"); path = std::string(d ? d : "/tmp") + "/c06_" + std::to_string((int)getpid()) + "_" + filename; }
+        struct Unlinker { std::string p; ~Unlinker() { if (!p.empty()) unlink(p.c_str()); } } unl;
+        if (real_file) { const char *d = getenv("PBT_TMPDIR"); path = std::string(d ? d : "/tmp") + "/c06_" + std::to_string((int)getpid()) + "_" + filename; unl.p = path; c.label("real-file"); }
         bool ck_first = !c.chance(1, 3);
         int rc_ck = -2, rc_sv; std::string text;
         log.clear();
@@ -374,7 +418,6 @@ struct H {
             rc_sv = vnadata_save(o.v, path.c_str());
             FILE *fp = fopen(path.c_str(), "r");
             if (fp) { char b[4096]; size_t k; while ((k = fread(b, 1, sizeof b, fp)) > 0) text.append(b, k); fclose(fp); }
-            unlink(path.c_str());
         } else { MemFile m; rc_sv = vnadata_fsave(o.v, m.fp, path.c_str()); text = m.finish(); }
         std::string sv_msgs = log.text(); int sv_err = log.n_nonwarning(); log.clear();
         if (!ck_first) { rc_ck = vnadata_cksave(o.v, path.c_str()); ck_msgs = log.text(); ck_err = log.n_nonwarning(); log.clear(); }
@@ -453,21 +496,21 @@ struct H {
                 const std::vector<Tok> &row = P.cols[fi];
                 ld fr = (ld)f[fi];
                 bool direct = true; for (auto &q : ev) if (q.noise > 0) direct = false;
-                // a value whose conversion noise exceeds 1e-10 of its size (sensitivity amplification > ~900) is numerically undetermined
+                // a value whose conversion noise exceeds 1e-9 of its size (sensitivity amplification > ~500) is numerically undetermined
                 // (singular or nearly singular conversion): nothing meaningful to compare
-                for (auto &q : ev) if (!(q.noise <= 1e-10L * std::abs(q.v))) { illcond = true; q.noise = INFINITY; }
+                for (auto &q : ev) if (!(q.noise <= ILL * std::abs(q.v))) { illcond = true; q.noise = INFINITY; }
                 int p = p_d();
                 std::string gname = g.name;
                 if (g.fmt == F_IL) {
                     int k = 0;
                     for (int r = 0; r < n; r++) for (int q = 0; q < n; q++) { if (r == q) continue; const Val &e = ev[(size_t)r * n + q];
-                        check_sig(row[g.col0 + k], insertion_loss(e.v), p, field_noise(e.v, e.noise, [](cl v) { return insertion_loss(v); }), false, "IL", fi, k); k++; }
+                        check_sig(row[g.col0 + k], insertion_loss(e.v), p, field_noise(e.v, e.noise, [](cl v) { return insertion_loss(v); }), false, "IL", fi, k, DB_ABS); k++; }
                 } else if (g.fmt == F_RL) {
-                    for (int k = 0; k < n; k++) { const Val &e = ev[(size_t)k * n + k]; check_sig(row[g.col0 + k], return_loss(e.v), p, field_noise(e.v, e.noise, [](cl v) { return return_loss(v); }), false, "RL", fi, k); }
+                    for (int k = 0; k < n; k++) { const Val &e = ev[(size_t)k * n + k]; check_sig(row[g.col0 + k], return_loss(e.v), p, field_noise(e.v, e.noise, [](cl v) { return return_loss(v); }), false, "RL", fi, k, DB_ABS); }
                 } else if (g.fmt == F_VSWR) {
                     for (int k = 0; k < n; k++) { const Val &e = ev[(size_t)k * n + k];
                         if (!(std::abs(e.v) + e.noise < 1)) { c.label("vswr-undefined(|s|>=1)"); continue; }
-                        check_sig(row[g.col0 + k], vswr(e.v), p, field_noise(e.v, e.noise, [](cl v) { return vswr(v); }), false, "VSWR", fi, k); }
+                        check_sig(row[g.col0 + k], vswr(e.v), p, field_noise(e.v, e.noise, [](cl v) { return vswr(v); }), false, "VSWR", fi, k, 2 * vswr(e.v) / (1 - std::abs(e.v))); }
                 } else {
                     for (size_t i = 0; i < ev.size(); i++) {
                         const Val &e = ev[i];
@@ -479,7 +522,7 @@ struct H {
                         } else if (g.fmt == F_MA || g.fmt == F_DB) {
                             int fm = g.fmt;
                             if (e.v == cl(0)) { c.label("polar-of-zero"); if (fm == F_MA) check_sig(a, 0, p, e.noise, false, gname.c_str(), fi, (int)(2 * i)); continue; }
-                            check_sig(a, o2[0], p, field_noise(e.v, e.noise, [fm, fr](cl v) { ld o[2]; encode(fm, v, fr, o); return o[0]; }), false, gname.c_str(), fi, (int)(2 * i));
+                            check_sig(a, o2[0], p, field_noise(e.v, e.noise, [fm, fr](cl v) { ld o[2]; encode(fm, v, fr, o); return o[0]; }), false, gname.c_str(), fi, (int)(2 * i), fm == F_DB ? DB_ABS : 0);
                             ld an = e.noise == 0 ? 0 : (e.noise < std::abs(e.v) / 2 ? 2 * asinl(e.noise / std::abs(e.v)) * 180 / PI_L : INFINITY);
                             check_angle(b, o2[1], an, gname.c_str(), fi, (int)(2 * i + 1));
                         } else {   // R-C / R-L views of the input impedance
@@ -516,13 +559,14 @@ struct H {
         }
         log.clear();
         int rc_ld;
-        {
+        if (real_file) rc_ld = vnadata_load(d.v, path.c_str());
+        else {
             FILE *fp = fmemopen((void *)text.data(), text.size(), "r");
             PBT_CHECK(c, fp != nullptr, "C06.setup", "fmemopen failed");
             rc_ld = vnadata_fload(d.v, fp, filename.c_str());
             fclose(fp);
         }
-        c.note("fload(\"%s\") = %d %s", filename.c_str(), rc_ld, log.text().c_str());
+        c.note("%s(\"%s\") = %d %s", real_file ? "load" : "fload", filename.c_str(), rc_ld, log.text().c_str());
         PBT_CHECK(c, rc_ld == 0 && log.n_nonwarning() == 0, "C06.load_rejects_saved_file", "vnadata_fload of the file just saved (%s, parameters %s) returned %d: %s", tsio::kind_name(kind), kind == tsio::K_NPD ? format.c_str() : P.groups[0].name.c_str(), rc_ld, log.text().c_str());
         int lt = (int)vnadata_get_type(d.v);
         std::vector<const tsio::Group *> cand;
@@ -572,8 +616,8 @@ struct H {
                 if (nonfinite) { ratio = 0; c.label("file-value-nonfinite"); }      // inf/nan in the file: nothing to assert
                 else ratio = err == 0 ? 0 : (tol > 0 ? err / tol : INFINITY);
                 if (ratio < best || detail.empty()) { best = std::min(best, ratio); char bb[400]; snprintf(bb, sizeof bb, "group %s holds %s %s = %.17Lg%+.17Lgj", g->name.c_str(), a.text.c_str(), b.text.c_str(), dv.real(), dv.imag()); detail = bb; }
-                if (!exact && !nonfinite && tol > 0) c.track_max("load_err/tol", (double)(err / tol));
             }
+            if (best > 0 && best < INFINITY) c.track_max("load_err/tol", (double)best);
             PBT_CHECK(c, best <= 1, "C06.loaded_value", "cell (%d,%d) at frequency %d: loaded %.17g%+.17gj as type %s but %s (error/tolerance %.3Lg)", i / n + 1, i % n + 1, fi, re_(lv), im_(lv), pname(lt), detail.c_str(), best);
             // statement: exact at maximum precision in rectangular form where the values are stored directly
             if (p_d() == PMAX && lt == type && !(kind == tsio::K_TS1 && !(z0[fi][0] == cl(1)))) {
